@@ -208,6 +208,8 @@ pub open spec fn tmp_untouched(t: TmpV, s: Set<u32>) -> bool {
 pub struct TmpNodes { x: u8 }
 impl TmpNodes {
     pub uninterp spec fn tv(&self) -> TmpV;
+    /// ghost: ids handed out by the id generator while this staging area was in scope (rule R12)
+    pub uninterp spec fn allocated(&self) -> Set<u32>;
     #[verifier::external_body]
     pub fn new() -> (r: heed::Result<TmpNodes>)
         ensures r matches Ok(t) ==> t.tv().puts == IMap::<u32, TNode>::empty() && t.tv().deleted == Set::<u32>::empty(), r matches Err(e) ==> e is Io || e is Heed
@@ -221,11 +223,12 @@ impl TmpNodes {
     pub fn put(&mut self, item: ItemId, data: &Node) -> (r: heed::Result<()>)
         requires item != u32::MAX, !(data is Leaf)
         ensures
+            final(self).allocated() == old(self).allocated(),
             r is Ok ==> final(self).tv() == (TmpV { puts: old(self).tv().puts.insert(item, tnode_of(*data)), deleted: old(self).tv().deleted }),
             r matches Err(e) ==> (e is Io || e is Heed) && final(self).tv() == old(self).tv(),
     { unimplemented!() }
     #[verifier::external_body]
     pub fn remove(&mut self, item: ItemId)
-        ensures final(self).tv() == (TmpV { puts: old(self).tv().puts, deleted: old(self).tv().deleted.insert(item) })
+        ensures final(self).allocated() == old(self).allocated(), final(self).tv() == (TmpV { puts: old(self).tv().puts, deleted: old(self).tv().deleted.insert(item) })
     { unimplemented!() }
 }
